@@ -107,9 +107,10 @@ class OSMRoadNetwork(RoadNetwork):
 
         for _, node_data in graph.nodes(data=True):
             # Replace lat/lon with geoid
+            # (y, x) = (lat, lon)
             node_data["geoid"] = h3.geo_to_h3(
-                node_data.get("x", node_data.get("lat")),
-                node_data.get("y", node_data.get("lon")),
+                node_data.get("y", node_data.get("lat")),
+                node_data.get("x", node_data.get("lon")),
                 sim_h3_resolution,
             )
             for key in ["x", "y", "lat", "lon"]:
@@ -121,6 +122,23 @@ class OSMRoadNetwork(RoadNetwork):
             raise Exception("Was not able to build link helper")
         else:
             self.min_speed_kmph: Kmph = min(link.speed_kmph for link in link_helper.links.values())
+
+            # the A* heuristic must never overestimate a travel time. dividing the great circle
+            # distance to the destination by the largest straight-line speed any link achieves
+            # (great circle distance between its nodes over its travel time) is a lower bound on
+            # the travel time of every path, whatever the link lengths and speeds are.
+            max_crow_kmph = 0.0
+            for u, v, d in graph.edges(data=True):
+                crow_km = H3Ops.great_circle_distance(
+                    graph.nodes[u]["geoid"], graph.nodes[v]["geoid"]
+                )
+                if crow_km <= 0:
+                    continue
+                elif d[TIME_WEIGHT] <= 0:
+                    max_crow_kmph = float("inf")
+                else:
+                    max_crow_kmph = max(max_crow_kmph, crow_km / (d[TIME_WEIGHT] / SECONDS_IN_HOUR))
+            self.max_crow_speed_kmph: Kmph = max_crow_kmph
             # finish constructing OSMRoadNetwork instance
             self.graph = graph
             self.link_helper = link_helper
@@ -187,7 +205,9 @@ class OSMRoadNetwork(RoadNetwork):
             dist: Kilometers = H3Ops.great_circle_distance(
                 self.graph.nodes[source]["geoid"], self.graph.nodes[dest]["geoid"]
             )
-            time: Hours = dist / self.min_speed_kmph
+            if self.max_crow_speed_kmph <= 0:
+                return 0.0
+            time: Hours = dist / self.max_crow_speed_kmph
             return time * SECONDS_IN_HOUR
 
         # start path search from the end of the origin link, terminate search at the start of the
